@@ -217,12 +217,27 @@ func cgroupScenario(s *Sim, params map[string]string) {
 		runMember(m, d)
 	}
 	// cluster events
+	var partChangeAt time.Duration = -1
+	partChangeKind := ""
 	if watch && t.Intn("cfg", 2) == 0 {
 		at := time.Duration(t.Range("fault", 1000, int(endAt/time.Millisecond))) * time.Millisecond
-		s.After(at, "partition-added", func() {
-			p := &Partition{Topic: "ct", ID: int32(len(top.Parts)), Leader: cl.Brokers[0].ID, Replicas: []int32{cl.Brokers[0].ID}, ISR: []int32{cl.Brokers[0].ID}}
-			top.Parts = append(top.Parts, p)
-			s.Count("fault:partition-added")
+		kind := Pick(t, "fault", "added", "added", "removed", "topic-deleted")
+		s.After(at, "partition-"+kind, func() {
+			switch kind {
+			case "added":
+				p := &Partition{Topic: "ct", ID: int32(len(top.Parts)), Leader: cl.Brokers[0].ID, Replicas: []int32{cl.Brokers[0].ID}, ISR: []int32{cl.Brokers[0].ID}}
+				top.Parts = append(top.Parts, p)
+			case "removed":
+				// the topic was deleted and re-created with fewer partitions
+				if len(top.Parts) < 2 {
+					return
+				}
+				top.Parts = top.Parts[:len(top.Parts)-1]
+			default:
+				delete(cl.Topics, "ct")
+			}
+			partChangeAt, partChangeKind = s.Now(), kind
+			s.Count("fault:partition-" + kind)
 		})
 	}
 	if fmode >= 2 && t.Intn("cfg", 2) == 0 {
@@ -343,6 +358,28 @@ func cgroupScenario(s *Sim, params map[string]string) {
 					}
 					if cause >= 0 && gn.endAt < cause-slack {
 						s.Fail("C15", "R2-early-cancel", "member %d generation %d: functions saw ctx.Done at %v but the first event that can end the generation is at %v", m.k, gn.id, gn.endAt, cause)
+					}
+				}
+			}
+		}
+		// R7: a change of a watched topic's partition count ends the generations
+		// that were live at that instant within one watch interval
+		if !timing && partChangeAt >= 0 {
+			for _, m := range members {
+				for _, gn := range m.gens {
+					if gn.gotAt > partChangeAt || (gn.ended && gn.endAt <= partChangeAt) {
+						continue
+					}
+					limit := partChangeAt + watchIvl + timeout + 4*slack
+					if m.closeInv != 0 && m.closeInvAt <= limit {
+						continue
+					}
+					if s.Now() > limit && (!gn.ended || gn.endAt > limit) {
+						end := "is still live"
+						if gn.ended {
+							end = fmt.Sprintf("ended only at %v", gn.endAt)
+						}
+						s.Fail("C15", "R7-partition-change-ignored", "member %d generation %d (live since %v): the watched topic's partition count changed at %v (%s), PartitionWatchInterval %v, but the generation %s at %v", m.k, gn.id, gn.gotAt, partChangeAt, partChangeKind, watchIvl, end, s.Now())
 					}
 				}
 			}
